@@ -5,6 +5,7 @@ import (
 	"errors"
 	"fmt"
 	"sort"
+	"sync"
 
 	"github.com/massnetorg/mass-core/blockchain"
 	"github.com/massnetorg/mass-core/debug"
@@ -27,6 +28,24 @@ type TxStore struct {
 	utxoStore *UtxoStore
 	syncStore *SyncStore
 	ksmgr     *keystore.KeystoreManager
+
+	// hashes of the pending transactions removeConflict dropped since the
+	// last TakeEvicted
+	evictedMu sync.Mutex
+	evicted   []wire.Hash
+}
+
+// TakeEvicted returns, and forgets, the hashes of the pending transactions
+// dropped as conflicts (or as descendants of one) since the previous call.
+// The caller drops them from whatever it keeps in memory about pending
+// transactions once the database transaction that dropped them is committed,
+// and ignores them when it was not.
+func (s *TxStore) TakeEvicted() []wire.Hash {
+	s.evictedMu.Lock()
+	defer s.evictedMu.Unlock()
+	ret := s.evicted
+	s.evicted = nil
+	return ret
 }
 
 // NewTxStore ...
@@ -501,7 +520,13 @@ func (s *TxStore) removeConflict(tx mwdb.DBTransaction, rec *TxRecord) error {
 	if err := s.utxoStore.removeUnminedGameHistory(tx, rec); err != nil {
 		return err
 	}
-	return deleteRawUnmined(nsUnmined, rec.Hash[:])
+	if err := deleteRawUnmined(nsUnmined, rec.Hash[:]); err != nil {
+		return err
+	}
+	s.evictedMu.Lock()
+	s.evicted = append(s.evicted, rec.Hash)
+	s.evictedMu.Unlock()
+	return nil
 }
 
 func (s *TxStore) ExistUnminedTx(tx mwdb.ReadTransaction, hash *wire.Hash) (mtx *wire.MsgTx, err error) {
